@@ -10,7 +10,7 @@ import (
 )
 
 type skS struct {
-	kind string // Sel Io Cancel IfCtxExit Return RecvClose SendOnce Join WgWait WgAdd WgDone Branch LoopCtx LoopRange LoopData
+	kind string // Sel Io IoE(io, a = error path) Cancel IfCtxExit Return RecvClose SendOnce Join WgWait WgAdd WgDone Branch LoopCtx LoopRange LoopData
 	ch   *skChan
 	proc *skProc
 	wg   string
@@ -42,10 +42,11 @@ type skProc struct {
 }
 
 type skNet struct {
-	name  string
-	procs []*skProc
-	chans []*skChan
-	wgs   []string
+	name    string
+	prelude []skS // main before the context is created
+	procs   []*skProc
+	chans   []*skChan
+	wgs     []string
 }
 
 func skEmpty(l []skS) bool { return len(l) == 0 }
@@ -66,7 +67,7 @@ func skNorm(l []skS) []skS {
 			if skEmpty(s.a) {
 				continue
 			}
-		case "LoopRange":
+		case "LoopRange", "IoE":
 			s.a = skNorm(s.a)
 		case "Sel":
 			alts := make([]skAlt, len(s.alts))
@@ -95,6 +96,8 @@ func skSendOnce(l []skS, tailExits bool) []skS {
 			}
 		case "Branch":
 			s.a, s.b = skSendOnce(s.a, next), skSendOnce(s.b, next)
+		case "IoE":
+			s.a = skSendOnce(s.a, next)
 		case "Sel":
 			alts := make([]skAlt, len(s.alts))
 			for j, a := range s.alts {
@@ -223,6 +226,8 @@ func (n *skNet) stmt(s skS, ind string) string {
 		return "Sel [ " + strings.Join(parts, ";\n"+ind+"      ") + " ]"
 	case "Io":
 		return "Io " + s.io
+	case "IoE":
+		return "IoE " + s.io + " " + n.list(s.a, ind+"    ")
 	case "Cancel", "IfCtxExit", "Return":
 		return s.kind
 	case "RecvClose", "SendOnce":
@@ -240,6 +245,28 @@ func (n *skNet) stmt(s skS, ind string) string {
 	}
 	die("skel: unknown statement kind %q", s.kind)
 	return ""
+}
+
+// skTerminates: every path through the block ends by leaving the goroutine
+func skTerminates(l []skS) bool {
+	if len(l) == 0 {
+		return false
+	}
+	last := l[len(l)-1]
+	switch last.kind {
+	case "Return":
+		return true
+	case "Branch":
+		return skTerminates(last.a) && skTerminates(last.b)
+	case "Sel":
+		for _, a := range last.alts {
+			if !skTerminates(a.body) {
+				return false
+			}
+		}
+		return len(last.alts) > 0
+	}
+	return false
 }
 
 func (n *skNet) print(b *strings.Builder) {
@@ -274,6 +301,10 @@ func (n *skNet) print(b *strings.Builder) {
 		if len(owners) > 0 { // several owners: the first is declared, wf rejects the others
 			senders[i] = "Some " + n.prName(owners[0])
 		}
+	}
+	if n.prelude != nil {
+		fmt.Fprintf(b, "(* what the main function does before its context exists (not part of the net) *)\nDefinition %s_main_prelude : list stmt :=\n  %s.\n",
+			n.name, n.list(n.prelude, "  "))
 	}
 	var pnames []string
 	for _, p := range n.procs {
